@@ -209,7 +209,13 @@ pub fn run_race(ctx: &mut Ctx, bytes: &[u8], force_shifting: bool) -> Result<boo
     let mut log = vec![];
     for _ in 0..bursts {
         // a batch of concurrent requests for the current version
-        let nreq = 1 + c.below(12);
+        // now and then far more requests at once than the machine has cores
+        let nreq = if c.chance(40) {
+            ctx.class("request batch larger than the number of cores");
+            2 * std::thread::available_parallelism().map(|n| n.get()).unwrap_or(8) + 1 + c.below(16)
+        } else {
+            1 + c.below(12)
+        };
         for _ in 0..nreq {
             let kind = KINDS[c.below(KINDS.len())];
             let (params, want) = request_for(kind, &uri, &text);
@@ -339,6 +345,20 @@ pub fn run_race(ctx: &mut Ctx, bytes: &[u8], force_shifting: bool) -> Result<boo
         let n = lsp.responses.get(id).map(|r| r.len()).unwrap_or(0);
         if n != 1 {
             let alive = lsp.alive();
+            if std::env::var("VERIF_C16_DEBUG").is_ok() {
+                let missing: Vec<i64> = expected.iter().filter(|(id, ..)| !lsp.responses.contains_key(id)).map(|(id, ..)| *id).collect();
+                eprintln!("DEBUG missing ids {:?} of {}", missing, expected.len());
+                let t0 = Instant::now();
+                let r = lsp.call("textDocument/hover", json!({"textDocument": {"uri": uri}, "position": {"line": 0, "character": 0}}), Duration::from_secs(20));
+                eprintln!("DEBUG fresh hover answered: {} after {:?}", r.is_some(), t0.elapsed());
+                lsp.pump(Duration::from_secs(20));
+                let missing2: Vec<i64> = expected.iter().filter(|(id, ..)| !lsp.responses.contains_key(id)).map(|(id, ..)| *id).collect();
+                eprintln!("DEBUG still missing after 40 more s: {:?}", missing2);
+                eprintln!("DEBUG stderr: {}", lsp.stderr());
+                for nn in lsp.notifications.iter().filter(|n| n["method"] != "textDocument/publishDiagnostics").take(10) {
+                    eprintln!("DEBUG notif {}", clip(&nn.to_string(), 300));
+                }
+            }
             lsp.kill();
             return Err(Failure::new(
                 format!("request {} (id {}, issued at version {}) got {} responses within 30 s (server alive: {}). {}", kind, id, v, n, alive, desc),
@@ -399,7 +419,7 @@ pub fn run_race(ctx: &mut Ctx, bytes: &[u8], force_shifting: bool) -> Result<boo
         v
     };
     let mut ok = false;
-    let end = Instant::now() + Duration::from_secs(10);
+    let end = Instant::now() + Duration::from_secs(30);
     let mut last: Option<Vec<String>> = None;
     while Instant::now() < end {
         lsp.pump(Duration::from_millis(100));
@@ -421,7 +441,7 @@ pub fn run_race(ctx: &mut Ctx, bytes: &[u8], force_shifting: bool) -> Result<boo
     if !ok {
         lsp.kill();
         return Err(Failure::new(
-            format!("10 s after the client went quiet the last published diagnostics {:?} are not those of the final text {:?}. {}", last.map(|l| l.len()), want_diags.len(), desc),
+            format!("30 s after the client went quiet the last published diagnostics {:?} are not those of the final text {:?}. {}", last.map(|l| l.len()), want_diags.len(), desc),
             case,
         )
         .sig("kind", "stale-diagnostics"));
